@@ -344,8 +344,8 @@ func c07alphabet() []c07op {
 		call("1", 'G'), call("1", 'i'), call("1", 'n'), call("1", 'e'), call("1", 'q'), call("1", 'r'),
 		call("12", 'G'), call("12", 'i'), call(`"a"`, 'G'), call(`"1"`, 'G'), call("1", 'b'),
 		// string ids whose text is not what an encoder would write (an escaped solidus, HTML
-		// metacharacters): reserved and released under the same key like any other
-		call(`"x\/y<&>"`, 'i'), call(`"x\/y<&>"`, 'G'),
+		// metacharacters, a raw DEL, an unassigned astral character): reserved and released under the same key like any other
+		call("\"x\\/y<&>\x7f\U000E0001\"", 'i'), call("\"x\\/y<&>\x7f\U000E0001\"", 'G'),
 		call("", 'G'), // gated notification: parks the dispatcher for later messages
 		batch(c07member{ID: "1", Kind: 'G'}, c07member{ID: "1", Kind: 'G'}),
 		// an id three and four times in one batch, next to an innocent member: all bearers fail
@@ -716,6 +716,10 @@ func init() {
 }
 
 func c07cases(e vt.Env, yield func(vt.Case) bool) {
+	// H, R: the edges of the reservation window (c07_window.go)
+	if !c07windowCases(e, yield) {
+		return
+	}
 	alpha := c07alphabet()
 	exhLen := e.Pick(3, 4)
 	// E1: exhaustive short histories; one case per first two symbols
